@@ -33,7 +33,22 @@ META = {
 }
 
 THEOREMS = [
-    "C05_stub",
+    "C05_tolerance",
+    "C05_max_precision",
+    "roundHE_err",
+    "scaleRound_err",
+    "exp10_bounds",
+    "sciDigits_rel",
+    "C05_pyformat_error",
+    "floatStyles_last",
+    "C05_float",
+    "C05_new_node",
+    "C05_int_value",
+    "C05_int_branch",
+    "C05_trunc_ofInt",
+    "C05_unchanged",
+    "C05_format_changed",
+    "C05_separated",
 ]
 
 WORKERS = 8
